@@ -70,6 +70,27 @@ type TextSpec struct {
 	// learns of the new columns, t does not.  The extra cells must not be shown
 	// and must not widen anything.
 	Long []LongRow `json:"long,omitempty"`
+	// ext: further steps of a property's own harness around the wrapper (C04:
+	// render-time callbacks of the application that write column alignments,
+	// renders before they are registered and further renders afterwards); one
+	// fresh value per decoration.  Never part of the JSON form.
+	ext func() *textExt
+}
+
+// textExt: hooks of a property's own harness into the life of the wrapper.
+type textExt struct {
+	// beforeBuild: on the empty table, before any building call
+	beforeBuild func(t tabular.Table)
+	// beforeWrap: right before texttable.Wrap (after the build, unless earlier
+	// renders are part of the spec's history: then the table is still empty)
+	beforeWrap func(t tabular.Table)
+	// afterWrap: right after the text wrapper was made and given its decoration
+	afterWrap func(t tabular.Table, tt *texttable.TextTable, w RenderW)
+	// onRender: at the start of every Render / RenderTo through the wrapper
+	onRender func()
+	// final: after BuildRenderW returned the outcome o of its last render; what
+	// it returns is the judged outcome (further renders through the same wrapper)
+	final func(w RenderW, o Outcome) Outcome
 }
 
 type LongRow struct {
@@ -201,6 +222,8 @@ type textW struct {
 	d      decoration.Decoration
 	nest   *NestSpec
 	others []func() (string, error)
+	// onRender (textExt): called at the start of every render through this wrapper
+	onRender func()
 }
 
 func makeOthers(t tabular.Table, kinds []int) []func() (string, error) {
@@ -256,6 +279,9 @@ func (w *textW) renderNested() {
 }
 
 func (w *textW) Render() (string, error) {
+	if w.onRender != nil {
+		w.onRender()
+	}
 	w.runOthers()
 	if w.nest == nil {
 		return w.tt.Render()
@@ -268,6 +294,9 @@ func (w *textW) Render() (string, error) {
 }
 
 func (w *textW) RenderTo(x io.Writer) error {
+	if w.onRender != nil {
+		w.onRender()
+	}
 	w.runOthers()
 	if w.nest == nil {
 		return w.tt.RenderTo(x)
@@ -818,15 +847,36 @@ func runText(ts TextSpec) textRun {
 		// every stage of the spec and the complete one at the end (the
 		// observed outcome); without stages it is made after the build
 		registerHooks(t, ts.Hooks)
+		var ext *textExt
+		if ts.ext != nil {
+			ext = ts.ext()
+		}
+		if ext != nil && ext.beforeBuild != nil {
+			ext.beforeBuild(t)
+		}
 		buildLongRows(t, ts.Long)
+		var made *textW
 		o := ts.Table.BuildRenderW(t, func(t tabular.Table) RenderW {
+			if ext != nil && ext.beforeWrap != nil {
+				ext.beforeWrap(t)
+			}
 			w := &textW{tt: texttable.Wrap(t).SetDecoration(d), d: d, nest: ts.Nest}
 			others := makeOthers(t, ts.Others) // made after the text wrapper, on the same table
 			if ts.RenderOthers {
 				w.others = others
 			}
+			if ext != nil {
+				w.onRender = ext.onRender
+				if ext.afterWrap != nil {
+					ext.afterWrap(t, w.tt, w)
+				}
+			}
+			made = w
 			return w
 		})
+		if ext != nil && ext.final != nil && made != nil {
+			o = ext.final(made, o)
+		}
 		if o.Kind == "panic" {
 			anyPanic = true
 		}
